@@ -51,6 +51,10 @@ CHECKS = {
          "Tie: acceptor with maxTasks = M on real Worker runs (M × backlog × durations × tasks_limit × queues), executions started, return of run(), leftover queue content and counters, run-on-enqueue plugin mode.",
          "PARTIAL: upper bound clause recorded as known finding F4 (attributed only when the run is explained event-for-event by the model).",
          "Lean 4 proof + step-level acceptor on the real worker", "§5 C10"),
+ "C11": ("Lean: invariant of every router/worker (one actor per name; topic sets = exactly the (name, queue) pairs of the actors; no empty topic set) preserved by registration and inclusion, for ANY sequence: serves_iff (full statement after fix 42c6068), union_last_wins, executes_named_actor, no_accept_all_consumer; broker side: foreign_untouched, not_blocked (in-memory rotation), refutation rotation_livelock_witness. "
+         "Tie: random router sets with overrides vs Route.worker; the real worker run with every (name, queue) job pair: which function ran for which id, foreign messages untouched; second worker with disjoint topics on a shared queue.",
+         "in-memory broker (Redis prefix filter covered by C07.topic_prefix_exact; RabbitMQ reject+requeue not exercised). Known finding F15 (livelock of two alternating consumers); defect F7 repaired by fix: 42c6068.",
+         "Lean 4 proof (invariant over registration sequences) + differential correspondence", "§5 C11"),
  "C12": ("Lean: a normal poll never returns an overdue message (mem_no_expired_delivery), an overdue head is dead-lettered and stays retrievable (mem_expired_to_dead, mem_dead_retrievable), nothing but nack or an overdue poll adds to the dead letters (mem_live_not_dropped, all atoms), boundary and TTL-clock theorems. "
          "Tie: sessions + exhaustive boundary table (ttl × message kind × −1/0/+1 µs) + idle-consumer arrivals on the real broker.",
          "in-memory broker only so far.",
